@@ -750,54 +750,6 @@ def _check_sold_percentage(rep, rule, m) -> None:
 
 
 def _check_groupby(rep, rule, prog) -> None:
-    """itertools.groupby merges only adjacent items: its input must be sorted by the same key (expected count on today's tree: 0).
+    from ..groupby import check_groupby
 
-    Scope: the modules this property is anchored in.  Outcomes: input is sorted(..., key=<same key>) at the call or through one local
-    assignment -> discharged; input is (a comprehension over / a list of) an rp2 collection in that collection's own order -> violation;
-    anything else -> unknown idiom (exit 2), never a guessed verdict."""
-    from ..loader import enclosing_class, enclosing_function
-
-    for mod in prog.package.modules.values():
-        if mod.name not in (OP, CD, "rp2.balance"):
-            continue
-        for n in ast.walk(mod.tree):
-            if not (isinstance(n, ast.Call) and ((isinstance(n.func, ast.Name) and n.func.id == "groupby") or (isinstance(n.func, ast.Attribute) and n.func.attr == "groupby"))):
-                continue
-            f, c = enclosing_function(n), enclosing_class(n)
-            qual = f"{c.name}.{f.name}" if c and f else (f.name if f else "<module>")
-            key = next((k.value for k in n.keywords if k.arg == "key"), n.args[1] if len(n.args) > 1 else None)
-            src = n.args[0] if n.args else None
-            if isinstance(src, ast.Name) and f is not None:
-                defs = [a for a in ast.walk(f) if isinstance(a, (ast.Assign, ast.AnnAssign)) and a.value is not None and any(isinstance(t, ast.Name) and t.id == src.id for t in (a.targets if isinstance(a, ast.Assign) else [a.target]))]
-                sorts = [a for a in ast.walk(f) if isinstance(a, ast.Call) and isinstance(a.func, ast.Attribute) and a.func.attr == "sort" and isinstance(a.func.value, ast.Name) and a.func.value.id == src.id]
-                if sorts and _same_key(next((k.value for k in sorts[-1].keywords if k.arg == "key"), None), key):
-                    rep.ok(rule, f"groupby input sorted in place by the grouping key: {short(n, 80)}")
-                    continue
-                if len(defs) == 1:
-                    src = defs[0].value
-            if isinstance(src, ast.Call) and isinstance(src.func, ast.Name) and src.func.id == "sorted":
-                skey = next((k.value for k in src.keywords if k.arg == "key"), None)
-                if _same_key(skey, key):
-                    rep.ok(rule, f"groupby input is sorted by the grouping key: {short(n, 80)}")
-                    continue
-                rep.violation(rule, mod.name, qual, f"groupby over input sorted by another key: {short(n, 80)}", f"{short(n, 120)} groups by {unparse(key) if key else 'identity'} an iterable sorted by {unparse(skey) if skey else 'its natural order'}: groupby merges only adjacent items, so a holder whose accounts are not contiguous is split and the later group overwrites the earlier one", loc(n))
-                continue
-            if isinstance(src, (ast.ListComp, ast.GeneratorExp)) or (isinstance(src, ast.Call) and isinstance(src.func, ast.Name) and src.func.id in ("list", "iter", "filter")) or isinstance(src, ast.Attribute):
-                rep.violation(rule, mod.name, qual, f"groupby over a collection in its own order: {short(n, 80)}", f"{short(n, 120)} groups an iterable that keeps the order of the collection it was built from ({short(src, 80)}), not the order of the grouping key: groupby merges only adjacent items, so a group whose members are not contiguous is split and the later part overwrites or duplicates the earlier one (a holder with accounts on exchanges that sort on either side of another holder's exchange loses rows and balance)", loc(n))
-                continue
-            raise AnalysisError(f"{mod.name}:{qual}: cannot determine the order of the iterable given to {short(n, 80)}")
-
-
-def _same_key(a: Optional[ast.AST], b: Optional[ast.AST]) -> bool:
-    if a is None or b is None:
-        return a is None and b is None
-    def canon(k: ast.AST) -> str:
-        if isinstance(k, ast.Lambda) and len(k.args.args) == 1:
-            name = k.args.args[0].arg
-            body = ast.parse(unparse(k.body), mode="eval").body
-            for x in ast.walk(body):
-                if isinstance(x, ast.Name) and x.id == name:
-                    x.id = "_x"
-            return "lambda:" + unparse(body)
-        return unparse(k)
-    return canon(a) == canon(b)
+    check_groupby(rep, rule, prog, (OP, CD, "rp2.balance"), "a holder with accounts on exchanges that sort on either side of another holder's exchange loses rows and balance; fractions of a year that is met twice contribute to no line")
